@@ -108,6 +108,7 @@ def gen_dup_formula(rng, templates, depth=4):
 
 def run(chk):
     thorough = chk.tier == 'thorough'
+    chk.bounds['families added after seeded changes'] = 'scope-stack family with the two recognised patterns as duplicates; swapped two-variable and partial-dependence duplicates (@{x}: v0); plain batches of different heights in both orders through model_check_multiple_formulae(_dirty) / model_check_multiple_trees(_dirty)'
     chk.bounds.update({'E-MIR': 'model_check_multiple_extended_formulae_dirty executed from MIR on batches of 1..3 formulas (quick: 2), n=2, k<=2; three global iteration-order policies for every HashMap / HashSet / BinaryHeap tie (thorough: every permutation for pairs); all transition systems and context sets',
                        'E-UNI': 'batches of up to 4 formulas through ext_multi(_dirty), against single evaluation, against an EvalContext without duplicates, repeated runs, with a recording progress observer; instances U2, C2, M2'})
     chk.assumptions.append('each result is compared with the explicit semantics of its own formula (hence with single evaluation and with sharing disabled)')
